@@ -1,7 +1,6 @@
 SPECIFICATION Spec
 CONSTANTS
-  Part = "strin"
+  Part = "shapes"
   MaxArms = 1
-INVARIANT StrinOK
-INVARIANT Publish
+INVARIANT StrinStrict
 CHECK_DEADLOCK FALSE
